@@ -92,6 +92,10 @@ def stepD (st : DState) (op : String) (args : List String) : Except String (DSta
     match op, args with
     | "setlen", [i, n] => .ok (.manager strategy (lens.set (natOf i) (intOf n)) rr, "u", "-", false)
     | "register", [n] => .ok (.manager strategy (Manager.register lens (intOf n)) rr, "u", "-", true)
+    | "unregister", [i] =>
+      let (lens', rr') := Manager.unregister lens rr (natOf i)
+      let order := ".".intercalate ((List.range lens'.length).map toString)
+      .ok (.manager strategy lens' rr', s!"x:{Manager.count lens'},{rr'},{order}", "-", true)
     | "next", _ =>
       let (r, rr') := Manager.next strategy lens rr
       let tot := Manager.total lens
